@@ -346,7 +346,7 @@ package martian
 
 //@ func (*Proxy).Serve
 //@   serves C07
-//@   requires p != nil && l != nil
+//@   requires proxyReady(p) && !p.connsMu.held && l != nil
 //@   modifies closingSeen, l.lstClosed
 //@   ensures[listener-closed-on-return] l.lstClosed
 //@   at call 0 of Accept before assert[no-accept-once-closing-was-observed] !closingSeen
